@@ -12,7 +12,7 @@ EXTENDS MC_DataX, DataXKeep
 
 CONSTANT LateOps
 
-KNext == \/ \E c \in Choices : Len(prog) < MaxLen /\ KW(c[1], c[2])
+KNext == \/ \E c \in Choices : Len(prog) < MaxLen /\ Pairable(c) /\ KW(c[1], c[2])
          \/ (Len(prog) > 0 /\ KOpen)
          \/ KR
          \/ \E c \in Choices : c[1] \in LateOps /\ late = <<>> /\ WLate(c[1], c[2])
